@@ -19,8 +19,8 @@ from typing import Any, Dict, List, Optional, Set, Tuple
 
 from hypothesis import strategies as st
 
-from .. import drive_api, gen, model
-from ..engine_common import engine_case, history_classes, inject_overdraft, permute_row_numbers
+from .. import cli_common, drive_api, e2e, filegen, gen, model
+from ..engine_common import end_of_instant_balance, engine_case, history_classes, inject_overdraft, permute_row_numbers
 from ..runner import Outcome
 
 ID = "C08"
@@ -42,7 +42,138 @@ CFG = gen.GenCfg(min_steps=3, max_steps=14, max_exchanges=3, max_holders=2, tie_
 
 
 def budget(tier: str) -> Dict[str, Any]:
-    return {"shards": 16, "examples": 1000 if tier == "quick" else 12000}
+    return {"shards": 16, "examples": 1000 if tier == "quick" else 12000, "examples2": 8 if tier == "quick" else 150}
+
+
+# ------------------------------------------------------------------------------------------------ end-to-end tier
+E2E_HIST = gen.GenCfg(min_steps=5, max_steps=14, max_exchanges=3, max_holders=2, tie_prob=0.3, ops=("in", "in", "out", "out", "intra", "intra"))
+
+
+@st.composite
+def strategy2_case(draw: Any) -> Dict[str, Any]:
+    """Files + console entry point: multi-account inputs, any window (-f / -t), with and without -n, half of them with one debit
+    enlarged so that its account ends that instant below zero (dust .. large)."""
+    case = draw(e2e.file_strategy(E2E_HIST, countries=("us", "us", "generic", "ie", "jp"), to_dates=True, from_dates=True, max_assets=2, flavours=("mixed", "transfer_heavy")))
+    case["allow_negative"] = draw(st.booleans())
+    case["e2e_overdraft"] = None
+    if draw(st.booleans()):
+        filegen.stamp_rows(case)
+        asset = draw(st.sampled_from(sorted(case["assets"])))
+        raw = [r for _, rows in case["assets"][asset]["tables"] for r in rows]
+        txs = model.make_txs(filegen.post_rows(raw)[0])
+        to_d = model.parse_date(case.get("to"))
+        targets = [r for r in raw if r["table"] in ("out", "intra") and (to_d is None or model.make_tx(dict(r)).day <= to_d)]
+        if targets:
+            row = draw(st.sampled_from(targets))
+            tx = model.make_tx(dict(row))
+            account = (row["from_ex"], row["from_ho"]) if row["table"] == "intra" else (row["ex"], row["ho"])
+            depth = model.F(draw(st.sampled_from(["0.00000000001", "0.0000000002", "0.000000001", "0.5", "3"])))
+            extra = end_of_instant_balance(txs, account, tx.us) + depth
+            if extra > 0 and extra < 20000:
+                if row["table"] == "out":
+                    field = "fee" if row["type"] == "fee" else "out"
+                    row[field] = gen._frac_to_str(model.F(row[field]) + extra)
+                    if row.get("out_with_fee") is not None:
+                        row["out_with_fee"] = gen._frac_to_str(model.F(row["out"]) + model.F(row["fee"]))
+                    for key in ("fiat_out_no_fee", "fiat_fee"):
+                        row.pop(key, None)
+                else:
+                    row["sent"] = gen._frac_to_str(model.F(row["sent"]) + extra)
+                    row["received"] = gen._frac_to_str(model.F(row["received"]) + extra)
+                case["e2e_overdraft"] = {"asset": asset, "uid": row.get("uid"), "account": list(account), "depth": str(depth)}
+    return case
+
+
+def strategy2(tier: str) -> Any:
+    return strategy2_case()
+
+
+def minimize(case: Dict[str, Any], clause: str) -> Dict[str, Any]:
+    return e2e.minimize(case, clause, evaluate) if case.get("e2e") else case
+
+
+def evaluate_e2e(case: Dict[str, Any]) -> Outcome:
+    out = Outcome()
+    out.classes.add("e2e_cli")
+    out.classes.add(f"e2e_{case['country']}")
+    allow = bool(case.get("allow_negative"))
+    out.classes.add("e2e_with_n" if allow else "e2e_without_n")
+    if case.get("from"):
+        out.classes.add("e2e_with_from_date")
+    if case.get("to"):
+        out.classes.add("e2e_with_to_date")
+    if case.get("e2e_overdraft"):
+        out.classes.add("e2e_overdraft_injected")
+    folder = cli_common.work_dir("c08e")
+    try:
+        result, dumps, rows_model = e2e.run(case, folder)
+        to_d = model.parse_date(case.get("to"))
+        verdicts = {}
+        global_over = False
+        for asset, rows in rows_model.items():
+            txs = model.make_txs(rows)
+            if not model.is_date_monotone(txs):
+                out.skipped = "non_monotone_dates(R3)"
+                return out
+            upto = [t for t in txs if to_d is None or t.day <= to_d]
+            verdicts[asset] = model.overdraft_verdict(upto) if upto else ("accept", None)
+            global_over = global_over or model.overspend_somewhere(txs)
+            out.classes.add(f"e2e_verdict_{verdicts[asset][0]}")
+        where = f"[end-to-end: rp2_{case['country']} from={case.get('from')} to={case.get('to')} {'-n' if allow else ''}]"
+        text = result.text
+        if any(v[0] == "undecided" for v in verdicts.values()):
+            out.skipped = "undecided(tolerance band)"
+            return out
+        rejecting = {a: v for a, v in verdicts.items() if v[0] == "reject"}
+        if rejecting and not allow:
+            out.nontrivial = True
+            reports = [n for n in result.files if n.endswith(".ods")]
+            if result.rc == 0:
+                out.fail("overdraft_not_rejected", f"{where} account {sorted(rejecting.items())} ends an instant below -1e-10, yet the run exits 0 and wrote {result.files}")
+            elif reports:
+                out.fail("report_written_despite_overdraft", f"{where} exit status {result.rc} but the output directory holds {reports}")
+            elif "went negative" in text:
+                named = any(f'account "{who[0]}"' in text and f'holder "{who[1]}"' in text for _, (_, who) in rejecting.items() if who)
+                candidates = set()
+                for asset in rejecting:
+                    candidates |= negative_accounts([t for t in model.make_txs(rows_model[asset]) if to_d is None or t.day <= to_d])
+                if not named and not any(f'account "{ex}"' in text and f'holder "{ho}"' in text for ex, ho in candidates):
+                    out.fail("error_names_wrong_account", f"{where} the error names an account that is never negative; negative accounts: {sorted(candidates)}; error: {[l for l in text.splitlines() if 'went negative' in l][:1]}")
+            elif not global_over:
+                out.fail("error_does_not_name_account", f"{where} rejected without naming the overdrawn account: {text.strip().splitlines()[-1:]}")
+            return out
+        # nothing must be rejected (no overdraft, or -n)
+        if result.rc != 0:
+            if global_over:
+                out.skipped = "whole_holding_overspent(C02)"
+                return out
+            if "went negative" in text or not rejecting:
+                clause = "rejected_despite_n" if rejecting else "no_overdraft_but_rejected"
+                line = [l for l in text.splitlines() if "went negative" in l or "Error" in l][-1:]
+                out.fail(clause, f"{where} no account's balance is below zero at any moment up to the to-date{' (or -n is given)' if allow else ''}, yet the run exits with {result.rc}: {line}")
+            else:
+                out.skipped = "e2e_run_failed(C16)"
+            return out
+        if dumps is None:
+            out.skipped = "e2e_run_failed(C16)"
+            return out
+        for asset, dump in dumps.items():
+            if not dump["ok"]:
+                out.skipped = "e2e_report_not_relatable(C13)"
+                return out
+            txs = model.make_txs(rows_model[asset])
+            expected = model.account_flows(txs, to_d)
+            reported = {(b["ex"], b["ho"]): b["final"] for b in dump["balances"]}
+            for key, flows in expected.items():
+                if reported.get(key) != flows.final:
+                    out.fail("balance_not_reported" if flows.final >= 0 else "negative_balance_not_reported", f"{where} asset {asset} account {key}: final balance from the rows up to the to-date = {flows.final}, the report shows {reported.get(key)}")
+                    return out
+            if any(f.final < 0 for f in expected.values()):
+                out.nontrivial = True
+                out.classes.add("e2e_negative_final_reported")
+    finally:
+        cli_common.cleanup(folder)
+    return out
 
 
 @st.composite
@@ -135,6 +266,8 @@ def negative_accounts(txs: List[model.Tx]) -> Set[Tuple[str, str]]:
 
 
 def evaluate(case: Dict[str, Any]) -> Outcome:
+    if case.get("e2e"):
+        return evaluate_e2e(case)
     out = Outcome()
     txs = model.make_txs(case["rows"])
     out.classes |= history_classes(txs, case["schedule"])
@@ -214,8 +347,12 @@ def known_signature(case: Dict[str, Any], clause: str, detail: str) -> Optional[
     """F12: a same-instant transfer chain A->X->B rejected because the row of X->B precedes the row of A->X."""
     if clause != "no_overdraft_but_rejected" or "IntraTransaction" not in detail:
         return None
-    txs = model.make_txs(copy.deepcopy(case["rows"]))
-    for ex, ho in model.same_instant_transfer_chain_accounts(txs):
-        if f'account "{ex}"' in detail and f'holder "{ho}"' in detail:
-            return "F12_same_instant_transfer_chain_order"
+    if case.get("e2e"):
+        histories = [model.make_txs(rows) for rows in filegen.case_post_rows(copy.deepcopy(case)).values()]
+    else:
+        histories = [model.make_txs(copy.deepcopy(case["rows"]))]
+    for txs in histories:
+        for ex, ho in model.same_instant_transfer_chain_accounts(txs):
+            if f'account "{ex}"' in detail and f'holder "{ho}"' in detail:
+                return "F12_same_instant_transfer_chain_order"
     return None
